@@ -19,12 +19,16 @@ pub fn action_json(a: &Action) -> Value {
         Action::ShortThenErr { num, den, errno } => json!({"short_then_errno": errno, "num": num, "den": den}),
         Action::ShortOnly { num, den } => json!({"short_only": true, "num": num, "den": den}),
         Action::Eintr => json!({"eintr": true}),
+        Action::Sticky(e) => json!({"sticky_errno": e}),
     }
 }
 
 pub fn action_from(v: &Value) -> Option<Action> {
     if let Some(e) = v.get("errno").and_then(|x| x.as_i64()) {
         return Some(Action::Errno(e as i32));
+    }
+    if let Some(e) = v.get("sticky_errno").and_then(|x| x.as_i64()) {
+        return Some(Action::Sticky(e as i32));
     }
     let num = v.get("num").and_then(|x| x.as_u64()).unwrap_or(1) as u32;
     let den = v.get("den").and_then(|x| x.as_u64()).unwrap_or(2) as u32;
@@ -46,6 +50,7 @@ fn action_name(a: &Action) -> String {
         Action::ShortThenErr { .. } => "short-then-error".into(),
         Action::ShortOnly { .. } => "short-only".into(),
         Action::Eintr => "eintr".into(),
+        Action::Sticky(e) => format!("sticky-errno{}", e),
     }
 }
 
@@ -55,6 +60,7 @@ fn kinds_for(call: Call, r: &mut Rng) -> Vec<(Action, Option<bool>)> {
         Call::Write => vec![
             (Action::Errno(libc::EIO), Some(false)),
             (Action::Errno(libc::ENOSPC), Some(false)),
+            (Action::Sticky(libc::ENOSPC), Some(false)),
             (Action::ShortThenErr { num: r.range(1, 7) as u32, den: 8, errno: libc::EIO }, Some(false)),
             (Action::Eintr, Some(true)),
             (Action::ShortOnly { num: r.range(1, 7) as u32, den: 8 }, Some(true)),
@@ -335,8 +341,16 @@ fn explore(case: &Case) -> Verdict {
         if ka.is_empty() || kb.is_empty() {
             continue;
         }
-        let fa = r.pick(&ka).clone();
-        let fb = r.pick(&kb).clone();
+        let mut fa = r.pick(&ka).clone();
+        let mut fb = r.pick(&kb).clone();
+        let mut ib = ib;
+        if r.chance(1, 3) {
+            // the disk fills up during commit n and is still full for all of commit n+1
+            fa = (Action::Sticky(libc::ENOSPC), Some(false));
+            fb = (Action::Sticky(libc::ENOSPC), Some(false));
+            ib = 0;
+            *counters.entry("disk_full_across_two_commits".into()).or_default() += 1;
+        }
         let plan = vec![Fault { nth: ia as u64, action: fa.0 }];
         let more = vec![(b.n, vec![Fault { nth: ib as u64, action: fb.0 }])];
         let v1 = one_more(case, steps.clone(), a.n, plan.clone(), fa.1, more.clone());
